@@ -16,7 +16,7 @@ TWIN = False
 MAXTOK = 4
 
 STR_ATOM = '"}{)\\"(]["'  # one string literal: brackets around an escaped quote
-ATOMS_FULL = ["x", "<", ">", ";", ",", "public", ":", STR_ATOM, "'{'", "int", "::", "=", "struct", "0", "->", "template", "private:"]
+ATOMS_FULL = ["x", "<", ">", ";", ",", "public", ":", STR_ATOM, "'{'", "'\\\\'", "int", "::", "=", "struct", "0", "->", "template", "private:"]
 ATOMS_CORE = ["x", "<", ">", ";", STR_ATOM, ","]
 ATOMS = ATOMS_FULL
 GROUPS = [("(", ")"), ("[", "]"), ("{", "}")]
@@ -28,6 +28,8 @@ REGIONS = [
     ("ctor-body", "struct S { S() : a(1), b{2} {", "} int after; }; int tail;", "{}"),
     ("ctor-init-paren", "struct S { S() : a(", "), b{2} { } int after; }; int tail;", "()"),
     ("ctor-init-brace", "struct S { S() : a(1), b{", "} { } int after; }; int tail;", "{}"),
+    ("ctor-init-pack", "template <typename... B> struct S : B... { S(B... bs) : B(", ")... { } int after; }; int tail;", "()"),
+    ("ctor-init-brace-pack", "template <typename... B> struct S : B... { S(B... bs) : a(1), B{", "}... { } int after; }; int tail;", "{}"),
     ("attr-args", "[[gnu::thing(", ")]] int after; int tail;", "()"),
     ("attr-list", "[[ a ,", "]] int after; int tail;", "[[]]"),
     ("gcc-attribute", "__attribute__((thing(", "))) int after; int tail;", "()"),
